@@ -132,7 +132,7 @@ class Read:
 def _call_parts(t):
     """('call', name, args..., site) -> (name, positional args, kwargs)"""
     name = t[1]
-    pos = [a for a in t[2] if not (isinstance(a, tuple) and a and a[0] == 'kw')]
+    pos = [a for a in t[2] if not (isinstance(a, tuple) and a and a[0] in ('kw', 'recv'))]
     kw = {a[1]: a[2] for a in t[2] if isinstance(a, tuple) and a and a[0] == 'kw'}
     return str(name), pos, kw
 
@@ -391,15 +391,21 @@ def lower_bytes_expr(t, out: List[Emit], atoms: Atoms, opaque_calls=False):
             src = [p for p in pos[1:] if p[0] != 'const']
             out.append(Emit('int', total // 8, src[-1] if src else pos[-1], bits))
             return
-        if base == 'to_bytes' or name == 'to_bytes':
-            raise LayoutError('int.to_bytes')
+        if base == 'to_bytes':
+            recv = [a[1] for a in t[2] if isinstance(a, tuple) and a and a[0] == 'recv']
+            order = kw.get('byteorder', pos[1] if len(pos) > 1 else ('const', 'big'))
+            n = kw.get('length', pos[0] if pos else None)
+            if not recv or n is None or n[0] != 'const' or order != ('const', 'big'):
+                raise LayoutError('int.to_bytes with non-literal length / byte order')
+            out.append(Emit('int', n[1], recv[0], lower_value_bits(recv[0], 8 * n[1])))
+            return
         if base in ('bytes', 'bytearray') and len(pos) == 1:
             lower_bytes_expr(pos[0], out, atoms, opaque_calls)
             return
         if opaque_calls:
             out.append(Emit('bytes', None, t))
             return
-    if k in ('attr', 'param', 'awaited', 'free'):
+    if k in ('attr', 'param', 'awaited', 'free', 'elem'):
         out.append(Emit('bytes', None, t))
         return
     if k == 'pure' and t[1] in ('encode',):
